@@ -1,16 +1,20 @@
 import GqlProofs.Grammar.Sound
 import GqlProofs.Grammar.Reject
 import GqlProofs.Grammar.PrintQuery
+import GqlProofs.Parser.SoundTop
 /-
   C05 — the query parser accepts exactly the executable grammar, faithfully.
 
-  This file holds the SPECIFICATION-side theorems: they are about the grammar tables `gql`, the
+  First the SPECIFICATION-side theorems: they are about the grammar tables `gql`, the
   derivation relation `Derives`, the generic recogniser (`recognises`, `canonical`: what the
-  driver ops `gq` / `gqc` run) and the unparser `Print.printQuery` (op `unparseq`).  The tie to
-  the real parser is the check `C05` (harness/internal/props/grammarcheck.go): verdict and
+  driver ops `gq` / `gqc` run) and the unparser `Print.printQuery` (op `unparseq`).
+  Then (section "the parser is sound") the theorems about the PARSER MODEL
+  (`GqlModel/Parser/Query.lean`, op `pq`): every accepted non-empty document is derivable and its
+  tree unparses to a canonical form of the input (`C05_parse_sound`, `C05_parse_sound_<nt>`).
+  The tie to the real parser is the check `C05` (harness/internal/props/grammarcheck.go): verdict and
   unparse equation against these definitions, input by input.
 -/
-open Gql Gql.Lexer Gql.Grammar Gql.Print
+open Gql Gql.Lexer Gql.Grammar Gql.Print Gql.Parser
 
 /-! ### the recogniser is sound: a `1` from `gq` is a derivation -/
 
@@ -153,6 +157,160 @@ example : WFQuery
     subst hf
     refine ⟨by decide, by simp, by simp, by simp [WFSelections, WFSelection]⟩
 
+/-! ### the parser is sound: accepted ⇒ derivable, and the tree is faithful
+
+  These theorems are about the parser model itself (`GqlModel/Parser/Query.lean`, the definitions
+  the driver op `pq` runs), not only about the specification side.
+
+  Vocabulary (`GqlProofs/Parser/{Stream,Spec}.lean`).  `abs s` is what the proofs see of a parser
+  state `s`: whether the one-token look-ahead is filled (`pk`), the stream `σ` of significant
+  (non-comment) lexer tokens that `next` has not consumed yet (the look-ahead token included), and
+  `cnt = tokenCount + number of raw tokens ahead`.  `Spec p R` says: for every state `s` with a
+  consistent look-ahead slot, if the run `run 0 p s` ends live (`err = none`, no fuel exhaustion)
+  then `R result (abs s) (abs final)`.  `Eats P result a a'` says: for some token list `used`,
+  `a.σ = used ++ a'.σ` (exactly `used` was consumed), no EOF token was consumed, and
+  `P result used`.  `tk used` is the grammar's view (`Tok`: kind and value) of `used`.
+
+  So `C05_parse_sound_value` reads: whenever `parseValueLiteral` ends without error, the tokens it
+  consumed are derivable from `Value[Const]` and are exactly the unparse of the value it returns. -/
+
+theorem C05_parse_sound_name : Spec parseName (Eats fun n used => tk used = [tName n]) := spec_parseName
+
+theorem C05_parse_sound_value (c : Bool) (n : Nat) :
+    Spec (parseValueLiteral n c) (Eats fun v used =>
+      Derives gql (.nt (.value c)) (tk used) (printValue v) ∧ tk used = printValue v ∧ (c = true → ConstValue v)) :=
+  (spec_parseValueLiteral c n).mono fun _ _ _ _ e => e.mono fun v u ⟨h1, h2⟩ =>
+    ⟨by rw [h1]; exact L_value c v h2, h1, h2⟩
+
+theorem C05_parse_sound_type (n : Nat) :
+    Spec (parseTypeReference n) (Eats fun ty used =>
+      Derives gql (.nt .typ) (tk used) (printType ty) ∧ tk used = printType ty) :=
+  (spec_parseTypeReference n).mono fun _ _ _ _ e => e.mono fun ty u h => ⟨by rw [h]; exact L_type ty, h⟩
+
+/-- `Arguments[Const]?`: nothing is consumed for the empty list -/
+theorem C05_parse_sound_arguments (c : Bool) (n : Nat) :
+    Spec (parseArguments n c) (Eats fun as used =>
+      Derives gql (.opt (.nt (.arguments c))) (tk used) (printArguments as) ∧ tk used = printArguments as) :=
+  (spec_parseArguments n c).mono fun _ _ _ _ e => e.mono fun as u ⟨h1, h2⟩ =>
+    ⟨by rw [h1]; exact L_optArguments c as h2, h1⟩
+
+/-- `Directives[Const]?` -/
+theorem C05_parse_sound_directives (c : Bool) (n : Nat) :
+    Spec (parseDirectives n c) (Eats fun ds used =>
+      Derives gql (.opt (.nt (.directives c))) (tk used) (printDirectives ds) ∧ tk used = printDirectives ds) :=
+  (spec_parseDirectives n c).mono fun _ _ _ _ e => e.mono fun ds u ⟨h1, h2⟩ =>
+    ⟨by rw [h1]; exact L_optDirectives c ds h2, h1⟩
+
+/-- `VariableDefinitions?` -/
+theorem C05_parse_sound_variable_definitions (n : Nat) :
+    Spec (parseVariableDefinitions n) (Eats fun vs used =>
+      Derives gql (.opt (.nt .variableDefinitions)) (tk used) (printVarDefs vs) ∧ tk used = printVarDefs vs) :=
+  (spec_parseVariableDefinitions n).mono fun _ _ _ _ e => e.mono fun vs u ⟨h1, h2⟩ =>
+    ⟨by rw [h1]; exact L_optVarDefs vs h2, h1⟩
+
+/-- `Selection`: here the consumed tokens and the unparse differ (`a: a` unparses as `a`); the
+    unparse is the canonical form of the derivation -/
+theorem C05_parse_sound_selection (n : Nat) :
+    Spec (parseSelection n) (Eats fun s used =>
+      Derives gql (.nt .selection) (tk used) (printSelection s) ∧ WFSelection s) :=
+  spec_parseSelection n
+
+/-- `SelectionSet` (never empty) -/
+theorem C05_parse_sound_selection_set (n : Nat) :
+    Spec (parseRequiredSelectionSet n) (Eats fun ss used =>
+      ss ≠ .nil ∧ WFSelections ss ∧ Derives gql (.nt .selectionSet) (tk used) (printSelectionSet ss) ∧ used ≠ []) :=
+  spec_parseRequiredSelectionSet n
+
+/-- `OperationDefinition`; the recorded position is that of the first consumed token -/
+theorem C05_parse_sound_operation_definition (n : Nat) :
+    Spec (parseOperationDefinition n) (Eats fun o used => (∃ t rest, used = t :: rest ∧ o.pos.start = t.start) ∧
+      Derives gql (.nt .operationDefinition) (tk used) (printOperation o) ∧ WFOperation o) :=
+  spec_parseOperationDefinition n
+
+/-- `FragmentDefinition` (with the library's optional variable definitions) -/
+theorem C05_parse_sound_fragment_definition (n : Nat) :
+    Spec (parseFragmentDefinition n) (Eats fun f used => (∃ t rest, used = t :: rest ∧ f.pos.start = t.start) ∧
+      Derives gql (.nt .fragmentDefinition) (tk used) (printFragment f) ∧ WFFragment f) :=
+  spec_parseFragmentDefinition n
+
+/-- what `Spec … (Eats …)` says, spelled out on runs for one program -/
+theorem C05_parse_sound_value_run (c : Bool) (n : Nat) (s : PState) (hs : WF s)
+    (hok : (run 0 (parseValueLiteral n c) s).2.err = none ∧ (run 0 (parseValueLiteral n c) s).2.oof = false) :
+    ∃ used : List Token,
+      (abs s).σ = Stream.app used (abs (run 0 (parseValueLiteral n c) s).2).σ ∧
+      Derives gql (.nt (.value c)) (tk used) (printValue (run 0 (parseValueLiteral n c) s).1) := by
+  have hl : dead (run 0 (parseValueLiteral n c) s).2 = false := by simp [dead, hok.1, hok.2]
+  obtain ⟨_, used, h1, h2, _⟩ := C05_parse_sound_value c n s hs hl
+  exact ⟨used, h1.σ, h2⟩
+
+/-- **Soundness of `ParseQuery`.**  If the parser accepts `inp` with a non-empty document `doc`,
+    then the lexer model succeeds on `inp`, the comment-free token sequence `ts` of `inp` is
+    derivable from `ExecutableDocument`, the unparse of `doc` is a canonical form of `ts` (the
+    output of a derivation of `ts`: `printQuery doc` is `ts` with bare `query` keywords and
+    self-aliases removed, the definitions in source order), and `doc` is well-formed. -/
+theorem C05_parse_sound (inp : Bytes) (doc : QueryDoc) (h : parseQuery 0 inp = .ok doc)
+    (hne : doc.ops ≠ [] ∨ doc.frags ≠ []) :
+    ∃ ts, tokensOf inp = some ts ∧ Derivable gql .executableDocument ts ∧
+      Derives gql (.nt .executableDocument) ts (printQuery doc) ∧ WFQuery doc := by
+  obtain ⟨raw, eof, h1, h2, h3, _, h5, _⟩ := parseQuery_sound inp doc h
+  obtain ⟨d, wf⟩ := h5 hne
+  exact ⟨_, tokensOf_of_done h1 h2 h3, ⟨_, d⟩, d, wf⟩
+
+/- FULL STATEMENT of tree faithfulness with the recogniser's `canonical` (not finished):
+
+     theorem C05_parse_faithful_canonical (inp doc) (h : parseQuery 0 inp = .ok doc) (hne : doc.ops ≠ [] ∨ doc.frags ≠ []) :
+       ∃ ts, tokensOf inp = some ts ∧ canonical gql .executableDocument ts = some (printQuery doc)
+
+   `C05_parse_sound` proves it with `Derives gql (.nt .executableDocument) ts (printQuery doc)` in
+   place of `canonical … = some …`, i.e. "the unparse is the canonical output of SOME derivation of
+   ts", where `canonical` returns the output of the FIRST derivation the matcher finds
+   (`C05_canonical_sound`).  The two missing links are facts about the grammar tables and the
+   generic matcher only, not about the parser:
+     (1) canonical outputs are unique:  Derives gql (.nt n) ts o₁ → Derives gql (.nt n) ts o₂ → o₁ = o₂
+         (unambiguity of the grammar up to the spellings `canon` removes);
+     (2) the matcher is complete at its standard fuel:  Derivable gql n ts → (canonical gql n ts).isSome.
+   The correspondence check C05 compares `printQuery tree` with `canonical` input by input. -/
+
+/-- … under any token limit (a parse that succeeds under a limit is the unlimited parse) -/
+theorem C05_parse_sound_limit (L : Nat) (inp : Bytes) (doc : QueryDoc) (h : parseQuery L inp = .ok doc)
+    (hne : doc.ops ≠ [] ∨ doc.frags ≠ []) :
+    ∃ ts, tokensOf inp = some ts ∧ Derivable gql .executableDocument ts ∧
+      Derives gql (.nt .executableDocument) ts (printQuery doc) ∧ WFQuery doc :=
+  C05_parse_sound inp doc (ofRun_mono (stricter_zero L) _ _ doc h) hne
+
+/-- a consequence on the level of `Derivable`: what the parser accepts with a non-empty tree has at
+    least the three tokens every executable document has, so it is in none of the "too short"
+    rejection classes of the grammar -/
+theorem C05_parse_sound_min_length (inp : Bytes) (doc : QueryDoc) (h : parseQuery 0 inp = .ok doc)
+    (hne : doc.ops ≠ [] ∨ doc.frags ≠ []) : ∃ ts, tokensOf inp = some ts ∧ 3 ≤ ts.length := by
+  obtain ⟨ts, h1, h2, _⟩ := C05_parse_sound inp doc h hne
+  exact ⟨ts, h1, C05_document_min_length ts h2⟩
+
+/-- the accepted documents with an empty tree are exactly those the FINDING below is about: the
+    input has no significant token at all -/
+theorem C05_parse_empty_tree (inp : Bytes) (doc : QueryDoc) (h : parseQuery 0 inp = .ok doc)
+    (he : doc.ops = [] ∧ doc.frags = []) : tokensOf inp = some [] := by
+  obtain ⟨raw, eof, h1, h2, h3, _, _, h6⟩ := parseQuery_sound inp doc h
+  rw [tokensOf_of_done h1 h2 h3, h6 he]; rfl
+
+/-- FINDING (the one exception to "accepts exactly the grammar"): the parser accepts the empty
+    document — zero definitions — which `ExecutableDocument : ExecutableDefinition+` does not
+    derive.  Inputs: the empty string, or any input of ignored tokens and comments only. -/
+theorem C05_parse_empty_counterexample :
+    parseQuery 0 [] = .ok { ops := [], frags := [] } ∧ tokensOf [] = some [] ∧
+      ¬ Derivable gql .executableDocument [] :=
+  ⟨rfl, by decide, C05_reject_classes_empty_document⟩
+
+/-- the same with ignored tokens only: ` ,` -/
+theorem C05_parse_ignored_only_counterexample :
+    (parseQuery 0 [32, 44]).isOk = true ∧ tokensOf [32, 44] = some [] := ⟨by decide, by decide⟩
+
+/-- non-vacuity of `C05_parse_sound`: `query{a:a}` is accepted with one operation, whose unparse
+    is `{ a }` (the bare `query` and the self-alias are not part of the tree) -/
+example : (parseQuery 0 [113,117,101,114,121,123,97,58,97,125]).isOk = true ∧
+    (runQuery 0 [113,117,101,114,121,123,97,58,97,125]).1.ops.map printOperation
+      = [[tP .braceL, tName [97], tP .braceR]] := ⟨by decide, by decide⟩
+
 #print axioms C05_print_in_grammar
 #print axioms C05_print_canonical
 #print axioms C05_recognise_sound
@@ -163,3 +321,16 @@ example : WFQuery
 #print axioms C05_reject_classes_variable_in_const
 #print axioms C05_reject_classes_fragment_name_on
 #print axioms C05_reject_classes_string_token_as_keyword
+#print axioms C05_parse_sound
+#print axioms C05_parse_sound_limit
+#print axioms C05_parse_sound_value
+#print axioms C05_parse_sound_type
+#print axioms C05_parse_sound_arguments
+#print axioms C05_parse_sound_directives
+#print axioms C05_parse_sound_variable_definitions
+#print axioms C05_parse_sound_selection
+#print axioms C05_parse_sound_selection_set
+#print axioms C05_parse_sound_operation_definition
+#print axioms C05_parse_sound_fragment_definition
+#print axioms C05_parse_empty_tree
+#print axioms C05_parse_empty_counterexample
